@@ -653,6 +653,10 @@ fn main() {
     let mut done = 0usize;
     while done < cases {
         let max = 1 + rng.below(3);
+        // every other pool with room for more than one connection is built small and grown:
+        // the limit in force is the one `resize()` set, not the configured one
+        let grown = max > 1 && rng.chance(40);
+        let bmax = if grown { 1 } else { max };
         let len = 4 + rng.below(14);
         done += len + 1;
         let which = rng.below(4);
@@ -665,17 +669,23 @@ fn main() {
                 0 => {
                     let script = Arc::new(Script::default());
                     let mgr = deadpool_r2d2::Manager::new(ScriptedMgr(script.clone()), Runtime::Tokio1);
-                    let pool = Pool::builder(mgr).max_size(max).runtime(Runtime::Tokio1).recycle_timeout(rtmo).build().unwrap();
+                    let pool = Pool::builder(mgr).max_size(bmax).runtime(Runtime::Tokio1).recycle_timeout(rtmo).build().unwrap();
+                    if grown {
+                        pool.resize(max);
+                    }
                     let mut s = R2d2Subject { pool, script };
                     history(&mut s, &mut rng, &format!("sp cfg kind=r2d2 max={max} method=fast"), max, len).await;
                 }
                 1 => {
                     let cfg = deadpool_sqlite::Config::new(":memory:");
                     let mut cfg = cfg;
-                    let mut pc = deadpool_sqlite::PoolConfig::new(max);
+                    let mut pc = deadpool_sqlite::PoolConfig::new(bmax);
                     pc.timeouts.recycle = rtmo;
                     cfg.pool = Some(pc);
                     let pool = cfg.create_pool(deadpool_sqlite::Runtime::Tokio1).unwrap();
+                    if grown {
+                        pool.resize(max);
+                    }
                     let mut s = SqliteSubject { pool, next: 0 };
                     history(&mut s, &mut rng, &format!("sp cfg kind=sqlite max={max} method=fast"), max, len).await;
                 }
@@ -702,11 +712,14 @@ fn main() {
                         deadpool_diesel::ManagerConfig { recycling_method },
                     );
                     let pool = deadpool_diesel::sqlite::Pool::builder(mgr)
-                        .max_size(max)
+                        .max_size(bmax)
                         .runtime(deadpool_diesel::Runtime::Tokio1)
                         .recycle_timeout(rtmo)
                         .build()
                         .unwrap();
+                    if grown {
+                        pool.resize(max);
+                    }
                     let mut s = DieselSubject { pool, next: 0, invalid, custom: method >= 2, custom_query: method == 3 };
                     let m = if method == 0 { "fast" } else { "verified" };
                     history(&mut s, &mut rng, &format!("sp cfg kind=diesel max={max} method={m}"), max, len).await;
